@@ -248,6 +248,7 @@ class TableRun:
                 def bad_vars(nat, e=e):
                     return 'ok' in nat     # compared in detail by report_lookup through expected variables
                 self.report_lookup(m, order, rq, f'variables delivered for {e.id}: {got} (expected {exp})', None, expect_vars=(e, exp))
+        if self.which in ('C01', 'C11'):
             # metadata carried to the request: body limit override, content type, handler
             mb_ok = (max_bytes.discr == 0) if e.max_bytes is None else (max_bytes.discr == 1 and ex.payload(max_bytes) == e.max_bytes)
             ct_ok = ex.variant_name(ctype) == e.content_type(ex)
@@ -262,6 +263,7 @@ class TableRun:
         chk = self.chk
         _, st, allow, err = r
         self.errs.append((rq, z3.And(*pc) if pc else z3.BoolVal(True), assume, st, [a for a in allow if isinstance(a, str)]))
+        if self.which == 'C11': return
         if self.which == 'C01':
             for e in self.eps:
                 m = chk.prove(self.name(f'error-only-if-unmatched/{order}/k{rq.k}/{e.id}'), pc, zbool(matches(e, rq)), extra=assume)
@@ -396,6 +398,8 @@ class TableRun:
                 reach = self.check_lookup(order, accepted)
                 if first: self.witnesses(order, reach)
                 first = False
+            if self.which == 'C11':
+                self.check_lookup(order, accepted)
             if self.which == 'C06':
                 self.check_iter(order, accepted, first)
                 first = False
